@@ -1115,6 +1115,18 @@ class Sym:
         return self._field(base, name, node, fr)
 
     def _field(self, base, name, node, fr):
+        if base[0] == 'new' and isinstance(base[1], str):
+            ci = self.prog.find_cls(base[1])
+            if ci is not None and ci.lookup(name) is None and ci.lookup_class_attr(name)[1] is None:
+                ga = ci.lookup('__getattr__')
+                stores = self.typer.attr_store_exprs.get((ci.qualname, name))
+                if ga is not None and not stores and ('getattr', ga.qualname) not in [s_[0:2] for s_ in self._stack] and fr.depth < MAX_DEPTH:
+                    # attribute not defined by the class: served by its __getattr__
+                    self._stack.append(('getattr', ga.qualname))
+                    try:
+                        return self._inline(ga, ('inst', ci), base, [lit(name)], {}, fr)
+                    finally:
+                        self._stack.pop()
         return ('attr', base, name)
 
     def _expand(self, tg: Target, exact: bool, name: str) -> List[Target]:
@@ -1559,6 +1571,18 @@ def intern_term(t):
     return go(t)
 
 
+def _neg_weight(c) -> int:
+    if not isinstance(c, tuple) or not c:
+        return 0
+    if c[0] == 'not':
+        return 1 + _neg_weight(c[1])
+    if c[0] == 'cmp' and c[1] in ('IsNot', 'NotEq', 'NotIn'):
+        return 1
+    if c[0] in ('and', 'or') and isinstance(c[1], tuple):
+        return sum(_neg_weight(p_) for p_ in c[1])
+    return 0
+
+
 def _cond_depth(t, d=0):
     if d > 6 or not (isinstance(t, tuple) and t and t[0] == 'cond'):
         return d
@@ -1612,6 +1636,15 @@ def _norm1(t):
             return a
         if c == ('lit', False) or c == ('lit', None):
             return b
+        if c[0] in ('and', 'or'):
+            # canonical polarity of a compound test: the form with fewer negations (De Morgan), branches swapped
+            nc = _norm1(('not', c))
+            if _neg_weight(nc) < _neg_weight(c):
+                return _norm1(('cond', nc, b, a))
+        if a[0] == 'cond' and a[1] == c:
+            return _norm1(('cond', c, a[2], b))   # inside the true branch the same test is true
+        if b[0] == 'cond' and b[1] == c:
+            return _norm1(('cond', c, a, b[3]))
         if c[0] == 'cond' and _cond_depth(c) <= 3:
             # the test is itself conditional: decide it branch by branch
             return _norm1(('cond', c[1], _norm1(('cond', c[2], a, b)), _norm1(('cond', c[3], a, b))))
@@ -1632,6 +1665,8 @@ def _norm1(t):
         return t
     if k == 'join':
         sep, seq = t[1], t[2]
+        if seq[0] == 'method' and seq[2] == 'split' and len(seq[3]) == 1 and seq[3][0][0] == 'lit' and isinstance(seq[3][0][1], str) and seq[3][0][1] and sep[0] == 'lit':
+            return ('method', seq[1], 'replace', (seq[3][0], sep))   # sep.join(x.split(old)) == x.replace(old, sep)
         if seq[0] in ('list', 'tuple') and sep[0] == 'lit' and isinstance(sep[1], str) and seq[1]:
             parts = []
             for i, x in enumerate(seq[1]):
@@ -1661,6 +1696,9 @@ def _norm1(t):
             flip = {'Is': 'IsNot', 'IsNot': 'Is', 'Eq': 'NotEq', 'NotEq': 'Eq', 'In': 'NotIn', 'NotIn': 'In'}
             if c[1] in flip:
                 return ('cmp', flip[c[1]], c[2], c[3])
+        if c[0] in ('and', 'or') and isinstance(c[1], tuple):
+            # De Morgan (order of the operands is kept, so short-circuit evaluation is the same)
+            return _norm1(('or' if c[0] == 'and' else 'and', tuple(_norm1(('not', p_)) for p_ in c[1])))
         return t
     if k in ('and', 'or'):
         parts = []
